@@ -3,7 +3,12 @@
    exactly the values it was assembled from.  Per-structure part: the implementation model's serialisation equals the
    reference layout (grows table by table; see Proofs/Tables.v and the per-table P files). *)
 From Coq Require Import NArith List.
-From ACPI Require Import Lib.Bytes Lib.Sx Impl.Fields Impl.Madt Spec.Layout Spec.MadtS Proofs.WalkP Proofs.MadtP.
+From ACPI Require Import Lib.Bytes Lib.Sx Lib.Machine Impl.Fields Impl.Table Impl.Madt Spec.Layout Spec.MadtS Proofs.TableP Proofs.WalkP Proofs.MadtP.
+From ACPI Require Import Impl.Mcfg Impl.Xsdt Impl.Srat Spec.McfgS Spec.XsdtS Spec.SratS
+  Proofs.MadtRefP Proofs.McfgRefP Proofs.XsdtRefP Proofs.SratRefP Proofs.FadtRefP Proofs.RsdpRefP Proofs.FixedRefP.
+From ACPI Require Import Impl.Rhct Impl.Viot Impl.Rimt Spec.RhctS Spec.ViotS Spec.RimtS Proofs.RhctRefP Proofs.ViotRefP Proofs.RimtRefP.
+From ACPI Require Import Impl.Fadt Impl.Spcr Impl.Bert Impl.Tpm2 Impl.Rsdp Impl.Facs
+  Spec.FadtS Spec.SpcrS Spec.BertS Spec.Tpm2S Spec.RsdpS Spec.FacsS.
 Import ListNotations.
 Open Scope N_scope.
 
@@ -23,5 +28,76 @@ Theorem c04_madt_structures :
   (forall a b c d e g, madt_entry_ref (SL [SA 9; SA a; SA b; SA c; SA d; SA e; SA g]) = Some (ser_flds (imsic a b c d e g))).
 Proof. exact madt_simple_entries_are_reference. Qed.
 
+(* ------------------------------------------------------------------------------------------------
+   Refinement: for EVERY constructor argument and EVERY finite history inside the reference's domain (ts_image = Some r), in
+   both build profiles, the implementation model accepts the history and its image is byte for byte the reference image r.
+   [*_ops_wf] / [*_ctor_bytes] restrict the exchange language only (a builder list contains builder calls; the elements of a
+   byte-array argument are bytes): no Rust caller can violate them; the [_refuted] examples in the proof files show that
+   they are needed as long as the case language can express such inputs. *)
+Theorem c04_madt_refines :
+  forall md ctor ops r,
+    ts_image madt_spec ctor ops = Some r -> madt_ops_wf ops -> N.of_nat (length r) < 2 ^ 32 ->
+    exists s0 s, madt_new ctor = Some s0 /\ run_adds madt_addition md s0 ops = Some s /\ tbl_image s = r.
+Proof. exact madt_refines. Qed.
+
+Theorem c04_mcfg_refines :
+  forall md ctor ops r,
+    ts_image mcfg_spec ctor ops = Some r -> N.of_nat (length r) < 2 ^ 32 ->
+    exists s0 s, mcfg_new ctor = Some s0 /\ run_adds mcfg_addition md s0 ops = Some s /\ tbl_image s = r.
+Proof. exact mcfg_refines. Qed.
+
+Theorem c04_xsdt_refines :
+  forall md ctor ops r,
+    ts_image xsdt_spec ctor ops = Some r -> N.of_nat (length r) < 2 ^ 32 ->
+    exists s0 s, xsdt_new ctor = Some s0 /\ run_adds xsdt_addition md s0 ops = Some s /\ tbl_image s = r.
+Proof. exact xsdt_refines. Qed.
+
+Theorem c04_srat_refines :
+  forall md ctor ops r,
+    ts_image srat_spec ctor ops = Some r -> srat_ops_wf ops -> N.of_nat (length r) < 2 ^ 32 ->
+    exists s0 s, srat_new ctor = Some s0 /\ run_adds srat_addition md s0 ops = Some s /\ tbl_image s = r.
+Proof. exact srat_refines. Qed.
+
+(* RHCT, VIOT, RIMT: node references (handles returned by earlier additions) resolve to the same offsets on both sides *)
+Theorem c04_rhct_refines :
+  forall md ctor ops r,
+    ts_image rhct_spec ctor ops = Some r -> N.of_nat (length r) < 2 ^ 32 ->
+    exists s0 s, rhct_new ctor = Some s0 /\ run_adds rhct_addition md s0 ops = Some s /\ tbl_image s = r.
+Proof. exact rhct_refines. Qed.
+
+Theorem c04_viot_refines :
+  forall md ctor ops r,
+    ts_image viot_spec ctor ops = Some r ->
+    exists s0 s, viot_new ctor = Some s0 /\ run_adds viot_addition md s0 ops = Some s /\ tbl_image s = r.
+Proof. exact viot_refines. Qed.
+
+Theorem c04_rimt_refines :
+  forall md ctor ops r,
+    ts_image rimt_spec ctor ops = Some r -> N.of_nat (length r) < 2 ^ 32 ->
+    exists s0 s, rimt_new ctor = Some s0 /\ run_adds rimt_addition md s0 ops = Some s /\ tbl_image s = r.
+Proof. exact rimt_refines. Qed.
+
+(* FADT (any builder calls), SPCR, BERT, TCPA server / client, TPM2 (with or without log area), RSDP, FACS;
+   refines spec wf new step image := forall md ctor ops r, ts_image spec ctor ops = Some r -> wf ctor ->
+                                     exists s0 s, new ctor = Some s0 /\ run_steps (step md) s0 ops = Some s /\ image s = r *)
+Theorem c04_fixed_structures_refine :
+  refines fadt_spec fadt_ctor_bytes fadt_new fadt_step fadt_image /\
+  refines spcr_spec any_ctor spcr_new spcr_step spcr_bytes /\
+  refines bert_spec any_ctor bert_new bert_step bert_bytes /\
+  refines tpmserver_spec any_ctor tpmserver_new tpmserver_step tpmserver_bytes /\
+  refines tpmclient_spec any_ctor tpmclient_new tpmclient_step tpmclient_bytes /\
+  refines tpm2_spec any_ctor tpm2_new tpm2_step tpm2_bytes /\
+  refines rsdp_spec rsdp_ctor_bytes rsdp_new rsdp_step rsdp_bytes /\
+  refines facs_spec any_ctor facs_new facs_step ser_flds.
+Proof. exact fixed_refines. Qed.
+
 Print Assumptions c04_reference_layouts_decode.
 Print Assumptions c04_madt_structures.
+Print Assumptions c04_madt_refines.
+Print Assumptions c04_mcfg_refines.
+Print Assumptions c04_xsdt_refines.
+Print Assumptions c04_srat_refines.
+Print Assumptions c04_fixed_structures_refine.
+Print Assumptions c04_rhct_refines.
+Print Assumptions c04_viot_refines.
+Print Assumptions c04_rimt_refines.
